@@ -256,6 +256,24 @@ pub fn visit_object(t: &mut Transducer, first_word: Address, last_word: Address)
     t.visit_mark_bit(last_word);
 }
 ''',
+    "canaries": r'''
+fn canary_transducer(t: &mut Transducer, a: Address, b: Address)
+    requires !old(t).in_object, b.0 >= a.0, old(t).to.0 + (b.0 - a.0) + 8 <= usize::MAX, a.0 % 8 == 0, b.0 % 8 == 0, old(t).to.0 % 8 == 0,
+    ensures false
+{
+    t.visit_mark_bit(a);
+    t.visit_mark_bit(b);
+    let e = t.encode(b);
+    let d = Transducer::decode(e, b);
+}
+proof fn canary_theorem(l: Layout, i: int, j: int)
+    requires wf_layout(l), 0 <= i < j < l.starts.len(),
+    ensures false
+{
+    theorem_c37(l, i, j);
+    lemma_run_prefix(l, j);
+}
+''',
     "dropped": ["derive attributes on Address/Transducer (Copy/Clone re-declared for Address)", "doc comments",
                 "debug_assert! in `Address - Address` (becomes SubSpecImpl::sub_req: lhs >= rhs)",
                 "`unsafe { }` around Address::from_usize (a plain constructor)", "`const` on from_usize/as_usize"],
